@@ -178,7 +178,7 @@ Qed.
 
 (** ** Signer checks *)
 Lemma find_grantee_spec s granter grantees k g :
-  find_grantee s granter grantees k = Some g -> In g grantees /\ has_grant s granter g k = true.
+  find_grantee s granter grantees k = Some g -> In g grantees /\ authz s granter g k = true.
 Proof. unfold find_grantee. intros H. apply find_some in H. exact H. Qed.
 
 Lemma effective_signers_incl s sg g : In g (effective_signers s sg) -> In g sg.
@@ -199,17 +199,20 @@ Proof.
   rewrite N.eqb_eq. split; [intros ->; reflexivity|intros [= ->]; reflexivity].
 Qed.
 
+Lemma authz_plain s a g k : k <> KAddData -> authz s a g k = has_grant s a g k.
+Proof. intros H. unfold authz. destruct k; cbn [kind_urls existsb]; try apply orb_false_r. contradiction. Qed.
+
 (** Every current holder that is not the proposed one signed (effectively), is a marker, or
     granted authz to an effective signer. *)
 Lemma vo_check_spec s proposed eff k : forall existing used,
   vo_check s existing proposed eff k = Some used ->
   forall e, In e existing -> proposed <> Some e ->
-  In e eff \/ is_marker s e = true \/ (exists g, In g eff /\ has_grant s e g k = true).
+  In e eff \/ is_marker s e = true \/ (exists g, In g eff /\ authz s e g k = true).
 Proof.
   induction existing as [|x r IH]; intros used H e Hin Hne; [destruct Hin|].
   cbn [vo_check] in H.
   assert (Hr : forall u, vo_check s r proposed eff k = Some u -> In e r ->
-               In e eff \/ is_marker s e = true \/ (exists g, In g eff /\ has_grant s e g k = true)).
+               In e eff \/ is_marker s e = true \/ (exists g, In g eff /\ authz s e g k = true)).
   { intros u Hu Hi. eapply IH; eassumption. }
   destruct (opt_is proposed x) eqn:Eo.
   - apply opt_is_true in Eo. destruct Hin as [->|Hin]; [contradiction|]. eapply Hr; eassumption.
@@ -229,7 +232,7 @@ Lemma vo_signers_spec s existing proposed sg k agents used e :
   vo_signers s existing proposed sg k = Some (agents, used) ->
   In e existing -> proposed <> Some e ->
   agents = effective_signers s sg /\
-  (In e agents \/ is_marker s e = true \/ (exists g, In g agents /\ has_grant s e g k = true)).
+  (In e agents \/ is_marker s e = true \/ (exists g, In g agents /\ authz s e g k = true)).
 Proof.
   unfold vo_signers. intros H Hin Hne.
   destruct (match existing with [x] => opt_is proposed x | _ => false end) eqn:Eearly.
